@@ -219,6 +219,11 @@ class Gen18(object):
             elems = [INT(), REAL(), STR(), NAMED(tnames[0]), ENT(r.choice(names))]
             elems += [T(k) for k in ('BOOLEAN', 'LOGICAL', 'NUMBER', 'BINARY') if self.ok('defined_aggr_elem:' + k)]
             el = r.choice(elems)
+            if el.kind == 'entity' and id_class(el.name) and not self.ok('id:%s:aggr_elem' % id_class(el.name)):
+                # the drawn entity carries a special identifier through another role while that identifier class is masked as an
+                # aggregate element (open finding, exercised by a probe): take an entity with an ordinary name instead
+                plain = [n for n in names if not id_class(n)]
+                el = ENT(plain[0]) if plain else INT()
             for w in want.get('use_aggr_elem', []):
                 el = ENT(w)
                 s.tags.add('defined_aggr_elem:special identifier')
